@@ -52,7 +52,8 @@ def handleRun (rest : List String) : String :=
           let modelHang := r.hang
           let mUnknown := (r.stderr.filter isMarked).map unmark
           let mErr := String.join ((r.stderr.filter (fun l => !isMarked l)).map (· ++ "\n"))
-          let textEq := r.ok && r.stdout == realListing && mUnknown == realUnknown
+          let textEq := r.ok && matchesUndef r.stdout realListing && mUnknown == realUnknown
+          let undef := (r.stdout.toList.filter (· == undefMark)).length / 2
           let l1 := sameSet r.codeC ((r.areas.filter (!·.2)).map (·.1))
           let areasReal := Spec.parseAreas realOut
           let areasModel : List Spec.Area := r.areas.map (fun p => ⟨p.1.start, p.1.start + p.1.len - 1, p.2⟩)
@@ -75,7 +76,7 @@ def handleRun (rest : List String) : String :=
                (ar.filter (!·.isData)).length, (ar.filter (·.isData)).length,
                ar.foldl (fun s x => s + (x.last + 1 - x.first)) 0)
           let rcEq := if timedOut then modelHang else (!modelHang && ((rrc == 0) == r.ok))
-          let base := s!"model={if r.ok then "ok" else "rejected"} rc={if rcEq then "eq" else "ne"} text={if textEq || timedOut then "eq" else "ne"} err={if mErr == realErr || timedOut then "eq" else "ne"} l1={if l1 then "eq" else "ne"} hang={if modelHang then 1 else 0} areas={if timedOut then "eq" else areasCmp} inside={ins} disjoint={dj} entry={entryOk} bytes={by_} bad={bad} ncode={ncode} ndata={ndata} nbytes={nbytes} ninstr={r.traced.length}"
+          let base := s!"model={if r.ok then "ok" else "rejected"} rc={if rcEq then "eq" else "ne"} text={if textEq || timedOut then "eq" else "ne"} err={if mErr == realErr || timedOut then "eq" else "ne"} l1={if l1 then "eq" else "ne"} hang={if modelHang then 1 else 0} areas={if timedOut then "eq" else areasCmp} inside={ins} disjoint={dj} entry={entryOk} bytes={by_} bad={bad} ncode={ncode} ndata={ndata} nbytes={nbytes} ninstr={r.traced.length} undef={undef}"
           if textEq || timedOut then base
           else base ++ " mtext=" ++ hex (bytesOfStr r.stdout) ++ " merr=" ++ hex (bytesOfStr mErr) ++ " munk=" ++ hex (bytesOfStr (String.intercalate "\n" mUnknown))
         | _, _ => "error=parse3"
@@ -163,9 +164,29 @@ def handleJmp (rest0 : List String) : String :=
     | _, _, _ => "error=parse1"
   | _ => "error=parse0"
 
+/-- `fwd <pc> <target> <real asl bytes hex | none>`: `callp <label>` at `pc` with the label defined at `target` (real asl on a source of
+its own) against the passes of `A87C.encodeF`: a label defined further down is first-pass-unknown with the program counter as its
+value in pass 1, an error in a pass ends the assembly.  answer `enc=<eq|ne> masm=<hex|none>` -/
+def handleFwd (rest : List String) : String :=
+  match rest with
+  | [pc, tgt, bytes] =>
+    match pc.toNat?, tgt.toNat?, (if bytes = "none" then some none else (unhex bytes).map some) with
+    | some pc, some t, some real =>
+      let enc : Option (List Nat) :=
+        if t > pc then
+          match A87C.encodeF true pc (.callp pc) with
+          | none => none
+          | some _ => A87C.encode pc (.callp t)
+        else A87C.encode pc (.callp t)
+      let realN : Option (List Nat) := real.map (·.map UInt8.toNat)
+      s!"enc={if enc == realN then "eq" else "ne"} masm={match enc with | some b => hex (b.map UInt8.ofNat) | none => "none"}"
+    | _, _, _ => "error=parse1"
+  | _ => "error=parse0"
+
 def handle (line : String) : String :=
   match words line with
   | "run" :: rest => handleRun rest
+  | "fwd" :: rest => handleFwd rest
   | "ins" :: rest => handleIns rest
   | "jmp" :: rest => handleJmp rest
   | _ => "error=mode"
